@@ -28,30 +28,32 @@ import (
 	"strings"
 	"syscall"
 	"time"
+	"unsafe"
 
 	"github.com/magefile/mage/mg"
 	"github.com/magefile/mage/sh"
 )
 
 type c15Req struct {
-	Fn      string            `json:"fn"`
-	Env     map[string]string `json:"env"` // hex -> hex; absent = nil map
-	Cmd     string            `json:"cmd"`
-	Args    []string          `json:"args"`
-	Setenv  map[string]string `json:"setenv"` // hex -> hex
-	Unset   []string          `json:"unset"`  // hex
-	Stdin   string            `json:"stdin"`  // hex: content of the caller's stdin
-	So      string            `json:"so"`     // Exec: nil | buf | os | fail:N (a writer that accepts N bytes, then fails)
-	Se      string            `json:"se"`
-	Dump    string            `json:"dump"`    // path of the helper child's report
-	Tmp     string            `json:"tmp"`     // directory for the capture files
-	Streams string            `json:"streams"` // "" / "file": os.Std* become files; "pipe": pipes
-	Wait    string            `json:"wait"`    // path: after the call wait (<= 60 s) for this file (written by the child's late descendant) before reading the captures
-	Calls   []c15Req          `json:"calls"`   // fn "group": the calls that run concurrently (fields fn, env, cmd, args, so, se, dump, hold)
-	Plan    []string          `json:"plan"`    // fn "group": events "s<i>" start call i and wait until its child has reported (or the call returned), "r<i>" release child i and wait for call i to return
-	Hold    string            `json:"hold"`    // group member: the file its child waits for
-	Kind    string            `json:"kind"`    // raw: child | fatal | fatalf | plain | nil | custom
-	Code    int               `json:"code"`
+	Fn        string            `json:"fn"`
+	Env       map[string]string `json:"env"` // hex -> hex; absent = nil map
+	Cmd       string            `json:"cmd"`
+	Args      []string          `json:"args"`
+	Setenv    map[string]string `json:"setenv"` // hex -> hex
+	Unset     []string          `json:"unset"`  // hex
+	Stdin     string            `json:"stdin"`  // hex: content of the caller's stdin
+	So        string            `json:"so"`     // Exec: nil | buf | os | fail:N (a writer that accepts N bytes, then fails)
+	Se        string            `json:"se"`
+	Dump      string            `json:"dump"`       // path of the helper child's report
+	Tmp       string            `json:"tmp"`        // directory for the capture files
+	Streams   string            `json:"streams"`    // "" / "file": os.Std* become files; "pipe": pipes
+	Wait      string            `json:"wait"`       // path: after the call wait (<= 60 s) for this file (written by the child's late descendant) before reading the captures
+	Calls     []c15Req          `json:"calls"`      // fn "group": the calls that run concurrently (fields fn, env, cmd, args, so, se, dump, hold)
+	Plan      []string          `json:"plan"`       // fn "group": events "s<i>" start call i and wait until its child has reported (or the call returned), "r<i>" release child i and wait for call i to return
+	Hold      string            `json:"hold"`       // group member: the file its child waits for
+	StdinKind string            `json:"stdin_kind"` // what os.Stdin is for the call: file (default) | devnull | socket | pty | dir | closed
+	Kind      string            `json:"kind"`       // raw: child | fatal | fatalf | plain | nil | custom
+	Code      int               `json:"code"`
 }
 
 type c15Res struct {
@@ -70,6 +72,7 @@ type c15Res struct {
 	BufErr       string          `json:"buf_err"`
 	Environ      []string        `json:"environ"`
 	Dump         json.RawMessage `json:"dump"`
+	StdinKind    string          `json:"stdin_kind"`              // the kind actually used (pty falls back to file where no pty is available)
 	Group        []c15Res        `json:"group,omitempty"`         // fn "group": one answer per call
 	EnvironAfter []string        `json:"environ_after,omitempty"` // fn "group": os.Environ() after all calls returned
 	// raw: what the standard library says about the error
@@ -255,8 +258,12 @@ func c15Do(q c15Req) (res c15Res) {
 			return c15Res{Error: err.Error()}
 		}
 		var err error
-		if fin, err = os.Open(inPath); err != nil {
+		var cleanup func()
+		if fin, cleanup, res.StdinKind, err = c15Stdin(q.StdinKind, inPath, []byte(c15Unhex(q.Stdin)), q.Tmp); err != nil {
 			return c15Res{Error: err.Error()}
+		}
+		if cleanup != nil {
+			defer cleanup()
 		}
 		// fresh files per request: a late write of a descendant of an earlier request's child must not
 		// reach this request's captures
@@ -557,4 +564,54 @@ func c15Group(q c15Req, res c15Res) c15Res {
 		os.Remove(c.Hold)
 	}
 	return res
+}
+
+// c15Stdin makes the file that os.Stdin becomes for one call: the KIND of file behind the descriptor is a
+// dimension (a regular file, /dev/null, one end of a unix socket pair, the slave side of a pty, a directory, a
+// closed file).  The payload is what a reader of that descriptor gets (nothing for devnull / dir / closed).
+func c15Stdin(kind, inPath string, payload []byte, tmp string) (f *os.File, cleanup func(), used string, err error) {
+	switch kind {
+	case "devnull":
+		f, err = os.Open(os.DevNull)
+		return f, nil, kind, err
+	case "dir":
+		f, err = os.Open(tmp)
+		return f, nil, kind, err
+	case "closed":
+		if f, err = os.Open(inPath); err == nil {
+			f.Close()
+		}
+		return f, nil, kind, err
+	case "socket":
+		fds, e := syscall.Socketpair(syscall.AF_UNIX, syscall.SOCK_STREAM, 0)
+		if e != nil {
+			return nil, nil, kind, e
+		}
+		syscall.CloseOnExec(fds[1])
+		a, b := os.NewFile(uintptr(fds[0]), "c15-socket-stdin"), os.NewFile(uintptr(fds[1]), "c15-socket-peer")
+		go func() {
+			b.Write(payload)
+			syscall.Shutdown(fds[1], syscall.SHUT_WR)
+		}()
+		return a, func() { b.Close() }, kind, nil
+	case "pty":
+		m, e := os.OpenFile("/dev/ptmx", os.O_RDWR|syscall.O_NOCTTY, 0)
+		if e == nil {
+			var n uint32
+			var unlock int32
+			_, _, e1 := syscall.Syscall(syscall.SYS_IOCTL, m.Fd(), syscall.TIOCSPTLCK, uintptr(unsafe.Pointer(&unlock)))
+			_, _, e2 := syscall.Syscall(syscall.SYS_IOCTL, m.Fd(), syscall.TIOCGPTN, uintptr(unsafe.Pointer(&n)))
+			if e1 == 0 && e2 == 0 {
+				if sl, e3 := os.OpenFile("/dev/pts/"+strconv.Itoa(int(n)), os.O_RDWR|syscall.O_NOCTTY, 0); e3 == nil {
+					// a line typed on the terminal, then end of input (^D at the start of a line)
+					go func() { m.Write(append(append([]byte{}, payload...), 4)) }()
+					return sl, func() { m.Close() }, kind, nil
+				}
+			}
+			m.Close()
+		}
+		// no pty here: a regular file
+	}
+	f, err = os.Open(inPath)
+	return f, nil, "file", err
 }
